@@ -290,6 +290,24 @@ func (agc *AggregatorContext) PrepareRoundEndBlock(block uint64) (newRoundFeeder
 	return newRoundFeederIDs
 }
 
+// CloseRoundsRecorded closes every open round whose round id has already been written to the
+// store, either with a final price or by a failed seal. It is used when the context is rebuilt
+// from the store after a restart: the messages of the block in which a round got its price are
+// not part of the replay log, so the replay alone leaves such a round open and the restarted
+// node would later seal it as failed and grow the round id once more than the other nodes.
+func (agc *AggregatorContext) CloseRoundsRecorded(nextRoundID func(tokenID uint64) uint64) {
+	for feederID, round := range agc.rounds {
+		if round.status != roundStatusOpen {
+			continue
+		}
+		feeder := agc.params.GetTokenFeeder(feederID)
+		if feeder != nil && nextRoundID(feeder.TokenID) > round.nextRoundID {
+			round.status = roundStatusClosed
+			delete(agc.aggregators, feederID)
+		}
+	}
+}
+
 // SetParams sets the params field of aggregatorContext“
 func (agc *AggregatorContext) SetParams(p *types.Params) {
 	agc.params = p
